@@ -940,3 +940,48 @@ package gojq
 //@   ensures env.scopes.index == old(env.forks[len(env.forks)-1].scopeindex) && env.scopes.limit == old(env.forks[len(env.forks)-1].scopelimit)
 //@   ensures env.paths.index == old(env.forks[len(env.forks)-1].pathindex) && env.paths.limit == old(env.forks[len(env.forks)-1].pathlimit)
 //@   ensures forall k :: {env.forks[k]} 0 <= k && k < len(env.forks) ==> env.forks[k] == old(env.forks[k])
+
+// ---------------------------------------------------------------------------------------
+// C10/C12: the JSON text of a value (library encoder). jsonOf is defined per kind from the property
+// text: numbers keep their digits (an int and a big integer print the decimal digits of their exact
+// value, a json.Number literal prints verbatim, a float as jsonFloat), strings as escFrom, arrays as
+// the comma-separated texts of the elements in order. The object case (keys in sorted order) is
+// ASSUMED: encodeObject is trusted to write jsonOf of its map (see DESIGN §0.7).
+// ---------------------------------------------------------------------------------------
+//@ spec func jsonOf(v any) string reads HE_any HMD_string_any HMV_string_any HML_string_any BIG
+//@ spec func jarr(vs []any, k int) string reads HE_any HMD_string_any HMV_string_any HML_string_any BIG
+//@ axiom json_nil: forall v any :: {jsonOf(v)} v == nil ==> jsonOf(v) == "null"
+//@ axiom json_bool: forall v any :: {jsonOf(v)} (v is bool) ==> jsonOf(v) == (v.(bool) ? "true" : "false")
+//@ axiom json_int: forall v any :: {jsonOf(v)} (v is int) ==> jsonOf(v) == fmtInt(v.(int))
+//@ axiom json_float: forall v any :: {jsonOf(v)} (v is float64) ==> jsonOf(v) == jsonFloat(v.(float64))
+//@ axiom json_big: forall v any :: {jsonOf(v)} (v is *big.Int) ==> jsonOf(v) == fmtInt(bigval(v.(*big.Int)))
+//@ axiom json_num: forall v any :: {jsonOf(v)} (v is json.Number) ==> jsonOf(v) == string(v.(json.Number))
+//@ axiom json_str: forall v any :: {jsonOf(v)} (v is string) ==> jsonOf(v) == "\"" + escFrom(v.(string), 0) + "\""
+//@ axiom json_arr: forall v any :: {jsonOf(v)} (v is []any) ==> jsonOf(v) == "[" + jarr(v.([]any), len(v.([]any))) + "]"
+//@ axiom jarr_zero: forall vs []any :: {jarr(vs, 0)} jarr(vs, 0) == ""
+//@ axiom jarr_step: forall vs []any; k, q int :: {jarr(vs, k), jarr(vs, q)} q == k + 1 && 0 <= k && k < len(vs) ==> jarr(vs, q) == jarr(vs, k) + ((k > 0) ? "," : "") + jsonOf(vs[k])
+
+// djson(v): v and everything inside it is of one of the nine JSON representation types.
+//@ spec func djson(v any) bool reads HE_any HMD_string_any HMV_string_any HML_string_any
+//@ axiom djson_top: forall v any :: {djson(v)} djson(v) ==> isJSON(v)
+//@ axiom djson_arr: forall v any :: {djson(v)} djson(v) && (v is []any) ==> (forall k :: {v.([]any)[k]} 0 <= k && k < len(v.([]any)) ==> djson(v.([]any)[k]))
+
+//@ func (e *encoder) encode(v any)
+//@   property C10 C12
+//@   using json_nil json_bool json_int json_float json_big json_num json_str json_arr djson_top djson_arr
+//@   requires e.w != nil && djson(v)
+//@   modifies out(e.w), e.buf
+//@   ensures out(e.w) == old(out(e.w)) + jsonOf(v)
+
+//@ func (e *encoder) encodeArray(vs []any)
+//@   property C12
+//@   using jarr_zero jarr_step djson_top djson_arr
+//@   requires e.w != nil && djson(vs)
+//@   modifies out(e.w), e.buf
+//@   loop 1 invariant e.w == old(e.w) && -1 <= rangeindex && rangeindex < len(vs) && out(e.w) == old(out(e.w)) + "[" + jarr(vs, rangeindex + 1)
+//@   ensures out(e.w) == old(out(e.w)) + "[" + jarr(vs, len(vs)) + "]"
+
+//@ trusted (e *encoder) encodeObject(vs map[string]any)
+//@   requires e.w != nil && djson(vs)
+//@   modifies out(e.w), e.buf
+//@   ensures out(e.w) == old(out(e.w)) + jsonOf(vs)
